@@ -404,6 +404,15 @@ pub fn classics() -> Vec<(String, Prog)> {
             out.push((format!("spawn-after-fence-rmw[{},{}]", f1.s(), lo.s()), Prog { nlocs: 2, pre: vec![], threads: vec![vec![st(1, 1, Rlx), f(f1), Op::SpawnFrom { t: 2 }], vec![ld(0, lo), ld(1, Rlx)], vec![Op::FetchAdd { loc: 0, add: 1, ord: Rlx }]] }));
         }
     }
+    // an acquire fence synchronizes through the stores the fencing thread loaded ITSELF, not through what its parent had
+    // loaded before the spawn: main reads A's release store and spawns T; T reads another, later store of the location,
+    // fences, and may still miss A's data
+    for &fo in &[Acq, AcqRel, Sc] {
+        for &so in &[Rel, Sc] {
+            out.push((format!("acq-fence-after-parent-read[{},{}]", fo.s(), so.s()), Prog { nlocs: 2, pre: vec![], threads: vec![vec![ld(0, Rlx), st(0, 2, Rlx), Op::SpawnFrom { t: 2 }], vec![st(1, 1, Rlx), st(0, 1, so)], vec![ld(0, Rlx), f(fo), ld(1, Rlx)]] }));
+            out.push((format!("acq-fence-after-parent-read-2[{},{}]", fo.s(), so.s()), Prog { nlocs: 2, pre: vec![], threads: vec![vec![ld(0, Rlx), Op::Swap { loc: 0, val: 2, ord: Rlx }, Op::SpawnFrom { t: 2 }], vec![st(1, 1, Rlx), st(0, 1, so)], vec![ld(0, Rlx), f(fo), ld(1, Rlx)]] }));
+        }
+    }
     // the spawn edge itself: what the parent did before the spawn is visible to the child, later writes need not be
     out.push(("spawn-edge".into(), Prog { nlocs: 2, pre: vec![], threads: vec![vec![st(0, 1, Rlx), Op::SpawnFrom { t: 1 }, st(1, 1, Rlx)], vec![ld(1, Rlx), ld(0, Rlx)]] }));
     // a store X becomes happens-before the reader between two reads of the same other store S: the next load must not go
@@ -613,6 +622,7 @@ impl RunResult {
 ///       4 = skip_branch before main's ops; 5 = region around thread 1's ops;
 ///       6 = expect_explicit_explore + explore() right before the first spawn;
 ///       7 = region around main's ops except the first one; 8 = stop_exploring() as the very last call of the iteration;
+///       11 = expect_explicit_explore, explore() only after the spawns (right before main's ops);
 ///       9 = skip_branch(); explore() before main's ops; 10 = skip_branch(); stop_exploring(); explore() before main's ops
 pub fn run(p: &Prog, cfg: &Cfg) -> RunResult {
     struct Acc {
@@ -652,7 +662,7 @@ pub fn run(p: &Prog, cfg: &Cfg) -> RunResult {
         if let Some(i) = cfg.checkpoint_interval {
             b.checkpoint_interval = i;
         }
-        if cfg.ctrl == 6 {
+        if cfg.ctrl == 6 || cfg.ctrl == 11 {
             b.expect_explicit_explore = true;
         }
         b.check(move || {
@@ -696,6 +706,10 @@ pub fn run(p: &Prog, cfg: &Cfg) -> RunResult {
             }
             if ctrl == 3 {
                 loom::stop_exploring();
+            }
+            if ctrl == 11 {
+                // exploration starts here: the spawns above were scheduling decisions taken with exploration off
+                loom::explore();
             }
             if ctrl == 4 || ctrl == 9 || ctrl == 10 {
                 loom::skip_branch();
